@@ -69,7 +69,7 @@ Qed.
 (* the flush of a reachable state: a state, a known-defect site, or one of the tolerated sites *)
 Lemma flush_outcome : forall c o s, Inv s -> flush_shape (flush true c o s).
 Proof.
-  intros c o s I. unfold flush.
+  intros c o s I. unfold flush, flush_mid.
   destruct (freeze_all (tabs s)) as [l0| |st| |] eqn:E0; cbn [bind].
   2:{ unfold freeze_all in E0. destruct (map_tabs_total _ _ _ _ E0) as [[? ?]|?]; discriminate. }
   2:{ exfalso. unfold freeze_all in E0. apply map_tabs_panic in E0. destruct E0 as [_ [k [v [HI Hf]]]].
@@ -123,7 +123,7 @@ Proof.
       { apply lookup_in_some. rewrite <- K1. eapply lookup_some_in; eauto. }
       destruct L0 as [t0 L0].
       assert (HI0 : In k (map fst l0)) by (eapply lookup_some_in; eauto).
-      destruct (F1 _ _ HI0 L0) as [t1' [L1' [Mid _ _ _]]]. rewrite L1 in L1'. injection L1' as <-.
+      destruct (F1 _ _ HI0 L0) as [t1' [L1' [Mid _ _ _ _]]]. rewrite L1 in L1'. injection L1' as <-.
       destruct (finish_spec _ Mid) as [t3 [D3 _]]. congruence. }
   2:{ unfold delete_orphans in E3. destruct (map_tabs_total _ _ _ _ E3) as [[? ?]|?]; discriminate. }
   2:{ unfold delete_orphans in E3. destruct (map_tabs_total _ _ _ _ E3) as [[? ?]|?]; discriminate. }
